@@ -38,10 +38,39 @@ import (
 
 // UserNames is the user alphabet.
 // The last name needs escaping in a URL path and in a form.
-var UserNames = []string{"alice", "bob", "carol", "d/e f+g%2Fh"}
+// The names after it are near-misses of "alice": objects of their own that must never be
+// confused with it (trailing blank, case, trailing slash).
+var UserNames = []string{"alice", "bob", "carol", "d/e f+g%2Fh", "alice ", "Alice", "alice/"}
 
-// Passwords is the password alphabet; index 3 is the empty password.
-var Passwords = []string{"pw-zero", "pw-one", "pw-two", ""}
+// Passwords is the password alphabet.  Index 3 is the empty password, 4 and 5 begin / end
+// with white space (they must work exactly as given), 6.. are near-misses of the others
+// (white space at either end, case, NUL, a Unicode look-alike of the hyphen, the trimmed
+// forms of 4 and 5): none of them is the same password as its neighbour.
+var Passwords = []string{"pw-zero", "pw-one", "pw-two", "", " pw lead", "pw trail ",
+	"pw-zero ", " pw-zero", "pw-zero\n", "PW-ZERO", "pw-zero\x00", "pw\u2010zero", "pw lead", "pw trail", "\tpw-one\r\n"}
+
+// NearMissPasswords lists, for a password index, the indices of its near-misses.
+func NearMissPasswords(pw int) []int {
+	switch pw {
+	case 0:
+		return []int{6, 7, 8, 9, 10, 11}
+	case 1:
+		return []int{14}
+	case 4:
+		return []int{12}
+	case 5:
+		return []int{13}
+	case 6, 7, 8, 9, 10, 11:
+		return []int{0}
+	case 12:
+		return []int{4}
+	case 13:
+		return []int{5}
+	case 14:
+		return []int{1}
+	}
+	return nil
+}
 
 // LowCostHashes are bcrypt.MinCost hashes of Passwords (the hash carries its cost).
 var LowCostHashes = []string{
@@ -49,6 +78,17 @@ var LowCostHashes = []string{
 	"$2a$04$Qxd8V/XtDlwNsruGYvlc8.kRiQYYvzDrGwLv9W7Iper.tEYMgGTCa",
 	"$2a$04$nqwAhgWYFkjA.zJHoHDurOlFIYd5EPhPQemIQyvNNlhdJOWIEg5yG",
 	"$2a$04$DHPChXBcp5FvO9M3VP3tz.UuxFKK/0kdvpExcJq68ZO.TRiHOh.1y",
+	"$2a$04$VQ.NkzHhLxM0cLJPcQnYKemjviTPlOHq7OAzygeVyov4bHIR37iky", // " pw lead"
+	"$2a$04$IirpBGP7PipMrd2VCkE0uub3kor4iy2n/eegVNNJXkTDTauOwx3q.", // "pw trail "
+	"$2a$04$39bkWb.bCTnyoEDQKRaqnuLC0kTF9FHXoRSzUZKK6MOvcZQXUfueu", // "pw-zero "
+	"$2a$04$CFmC1OHmwL/OeZQcKGTG6uGv.wWTJz22RydjfEEZEBf93y9gSHd5u", // " pw-zero"
+	"$2a$04$p7Zr6Gc2KIEAPhMUdErh5OZhZvuppISeXlR.wgyRjGcK1u1kIqlSa", // "pw-zero\n"
+	"$2a$04$v/d89geJrWzJEzupCOWDLePrjAezNLlPiDDF7aEwZaVLkw7MLHWMK", // "PW-ZERO"
+	"$2a$04$MmhAsg3OKw3gDp8AMCO6H.g1hgdxt.gDeAnhTv31.0SFJNfy234w2", // "pw-zero\x00"
+	"$2a$04$/dDoXdN4qeUvvMt.PMqI0.Uasf8G.2nLlDxh4OVViGl/HJoBvQXru", // "pw\u2010zero"
+	"$2a$04$L/ohmRESwUMC6Cgghf4SHOuC3UVHleIziBCzho90btsMLv89uWwt6", // "pw lead"
+	"$2a$04$HAs.CTeYKGVuCDn2At2QdOoI0SLqvz6wZiq2YDqsgFCR.bppdc7dm", // "pw trail"
+	"$2a$04$lUrV5qrB5geT9lK/LD1E6OFi9turTooAsup9UFNjIzjnJSyVLeaga", // "\tpw-one\r\n"
 }
 
 // Profile is the descriptive part of a user record.
@@ -76,13 +116,28 @@ func ProfileOf(user string, variant int) Profile {
 const NProfiles = 4
 
 // ServiceNames is the service-name alphabet.
-var ServiceNames = []string{"svc-a", "svc-b", "svc-c", "svc d/\u00e9+%2F?x"}
+var ServiceNames = []string{"svc-a", "svc-b", "svc-c", "svc d/\u00e9+%2F?x", "svc-a/", "SVC-A", "svc-a%2F"}
 
 // ShortcutNames is the shortcut-name alphabet.
-var ShortcutNames = []string{"sc-x", "sc-y", "sc z/+ q#r"}
+var ShortcutNames = []string{"sc-x", "sc-y", "sc z/+ q#r", "sc-x/", "SC-X", "sc-x "}
 
 // Entities: two registrable entity IDs and one that is never registered.
-var Entities = []string{"https://sp-one.example/saml/metadata", "https://sp-two.example/saml/metadata", "https://sp-none.example/saml/metadata"}
+// Indices 3.. are near-misses of entity 0 (trailing slash, case, a query, a trailing blank,
+// percent-encoding): entity IDs are opaque strings, each of these is a different SP.
+var Entities = []string{"https://sp-one.example/saml/metadata", "https://sp-two.example/saml/metadata", "https://sp-none.example/saml/metadata",
+	"https://sp-one.example/saml/metadata/", "https://SP-ONE.example/saml/metadata", "https://sp-one.example/saml/metadata?v=1",
+	"https://sp-one.example/saml/metadata ", "https://sp-one.example/saml%2Fmetadata"}
+
+// NearMissEntities lists the entity indices that are near-misses of entity e.
+func NearMissEntities(e int) []int {
+	if e == 0 {
+		return []int{3, 4, 5, 6, 7}
+	}
+	if e >= 3 {
+		return []int{0}
+	}
+	return nil
+}
 
 // ACS URLs; the last one is in no metadata variant.
 var ACS = []string{"https://sp-one.example/saml/acs", "https://sp-one.example/saml/acs-b", "https://sp-two.example/saml/acs", "https://sp-two.example/saml/acs-d", "https://evil.example/acs"}
@@ -118,6 +173,12 @@ var Variants = []MDVariant{
 	{Entity: 0, ACS: []int{1, 0}, Layout: [][]ACSSpec{{{URL: 1, RespLoc: true}}, {{URL: 0, RespLoc: true, Default: true}}}, Extras: true},
 	// a POST endpoint followed by a redirect-bound default endpoint
 	{Entity: 1, ACS: []int{2, 3}, Layout: [][]ACSSpec{{{URL: 2, RespLoc: true}, {URL: 3, Redirect: true, Default: true}}}, Extras: true},
+	// registrations of the near-miss entity IDs of entity 0 (variants 6..10)
+	{Entity: 3, ACS: []int{0}},
+	{Entity: 4, ACS: []int{1}},
+	{Entity: 5, ACS: []int{0}},
+	{Entity: 6, ACS: []int{0}},
+	{Entity: 7, ACS: []int{1}},
 }
 
 // RelayStates used in requests and shortcuts.
@@ -823,8 +884,10 @@ func (e *Env) Build(s Step) *Built {
 		}
 	case "sso":
 		ent := Entities[clamp(s.Issuer, len(Entities))]
-		mu, _ := url.Parse(ent)
-		sp := saml.ServiceProvider{EntityID: ent, MetadataURL: *mu, IDPMetadata: &saml.EntityDescriptor{}}
+		sp := saml.ServiceProvider{EntityID: ent, IDPMetadata: &saml.EntityDescriptor{}}
+		if mu, err := url.Parse(strings.TrimSpace(ent)); err == nil {
+			sp.MetadataURL = *mu
+		}
 		if s.ACS >= 0 {
 			au, _ := url.Parse(ACS[clamp(s.ACS, len(ACS))])
 			sp.AcsURL = *au
